@@ -2,8 +2,15 @@
 Model: Model/Convert.v (zeroed target record + copy by dimension name through the checked setters, tables of Gen/GenDims.v;
 version rule of Model/HeaderOps.v; extra dimensions, VLR/EVLR lists). Correspondence: laspy.convert on real LasData objects vs
 the extracted `convert`, all 121 format pairs x explicit/implicit versions x contents; dimension-name lists and
-lost_dimensions for every format / pair. Search: the property stated on the implementation (no model involved)."""
+lost_dimensions for every format / pair. Search: the property stated on the implementation (no model involved).
+
+Round 5: (1) NAMES - the extra dimensions are no longer assumed to carry fresh names: names of packed fields / sub-fields of the
+target, of the source, of other formats, legacy aliases (OLD_LASPY_NAMES), scaled coordinates, case variants, in the case stream
+(model + oracle) and in a sweep of every such name x all 121 pairs; (2) SIZE - conversions of records just over 2^16 and 2^20
+(thorough: 2^21 + k) points, every value non-zero and position dependent, compared field by field; (3) STATE - every call is
+made twice, the caller editing what the first call returned (result object, lists, sets, arrays) in between."""
 import copy
+import hashlib
 import io
 import random
 import struct
@@ -14,8 +21,13 @@ from harness import common, lasio
 
 DRIVER = "c12"
 ASSUMPTIONS = [
-    "extra-dimension names are pairwise distinct and differ from every standard dimension, packed-field and legacy alias name "
-    "(OLD_LASPY_NAMES); numpy rejects duplicates when the source record is built",
+    "the source exists as a numpy record: the field names of its dtype (packed fields of its format followed by its extra "
+    "dimensions) are pairwise distinct - numpy refuses anything else when the record is built; nothing else is assumed of the "
+    "names of the extra dimensions",
+    "name rule of the model (Model/Convert.v): an extra dimension named like a packed field of the target is refused with "
+    "ValueError (numpy, as /repo does); otherwise standard dimensions are copied from standard dimensions and extra dimensions "
+    "from extra dimensions of the same name - the behaviour of the minimal repair of PackedPointRecord.copy_fields_from, which in "
+    "/repo resolves a name shared by an extra dimension and a sub-field / legacy alias / scaled coordinate to the standard one",
     "numpy assignment between arrays of the same dtype copies the bytes (floating point fields are compared by bit pattern)",
     "the source is a LasData whose header version and point format are compatible and whose header format is the record's format",
     "EVLR objects of a >= 1.4 result are the source's objects (the list is new): object-level edits of an EVLR are outside the claim",
@@ -31,8 +43,25 @@ RULE = ("every (source, target) pair of the 11 formats x target version {implici
         "extreme byte patterns; for narrowing pairs (6-10 -> 0-5) three modes: every value fits, exactly one value too large "
         "(classification 32..255, return number / number of returns 8..15), unconstrained; 0..3 extra dimensions (30 element types, "
         "scaled, 64-bit, float, opaque arrays), 0..5 VLRs plus one appended after the extra-bytes VLR, EVLRs present / empty / None, "
-        "sources built in memory or re-read from a written file. non-trivial = at least one point or extra dimension or VLR; distinct "
-        "by (pair, versions, mode, record bytes, extra-dimension layout, VLR lists)")
+        "sources built in memory or re-read from a written file; half of the sources with extra dimensions name them after a packed "
+        "field / sub-field of the target or source format, a legacy alias, a scaled coordinate, a dimension of a third format or a case "
+        "variant (non-zero values, types wider / narrower than the standard field); every conversion is made twice, the first result "
+        "being edited in between; plus: every clash name x every (source, target) pair with a small record (sweep), records of "
+        "2^16 + k and 2^20 + k points (thorough 2^21 + k, exact multiples) with position-dependent non-zero values, and the table "
+        "functions (lost_dimensions, PointFormat, supported_*) called twice with the first answer edited by the caller. "
+        "non-trivial = at least one point or extra dimension or VLR; distinct by (pair, versions, mode, record bytes, extra-dimension "
+        "layout, VLR lists)")
+
+# LAS specification: the packed fields of a point record of each format (a numpy record cannot hold two fields of one name)
+_BASE0 = ["X", "Y", "Z", "intensity", "bit_fields", "raw_classification", "scan_angle_rank", "user_data", "point_source_id"]
+_BASE6 = ["X", "Y", "Z", "intensity", "bit_fields", "classification_flags", "classification", "user_data", "scan_angle",
+          "point_source_id", "gps_time"]
+_RGB = ["red", "green", "blue"]
+_WAVE = ["wavepacket_index", "wavepacket_offset", "wavepacket_size", "return_point_wave_location", "x_t", "y_t", "z_t"]
+SPEC_FIELDS = {0: _BASE0, 1: _BASE0 + ["gps_time"], 2: _BASE0 + _RGB, 3: _BASE0 + ["gps_time"] + _RGB,
+               4: _BASE0 + ["gps_time"] + _WAVE, 5: _BASE0 + ["gps_time"] + _RGB + _WAVE, 6: _BASE6, 7: _BASE6 + _RGB,
+               8: _BASE6 + _RGB + ["nir"], 9: _BASE6 + _WAVE, 10: _BASE6 + _RGB + ["nir"] + _WAVE}
+CLASSES = ["target-field", "target-sub-field", "source-sub-field", "alias", "coordinate", "other-format", "variant"]
 
 
 # ---------------------------------------------------------------------------------
@@ -53,9 +82,9 @@ def descriptors(pf):
     extra = list(pf.extra_dimensions)
     if not extra:
         return []
-    tmp_pf = laspy.PointFormat(6)
+    tmp_pf = laspy.PointFormat(pf.id)      # the format the dimensions live next to: no name of theirs repeats one of its fields
     tmp_pf.dimensions.extend(extra)
-    h = laspy.LasHeader(version="1.4", point_format=6)
+    h = laspy.LasHeader(version="1.4", point_format=pf.id)
     h.point_format = tmp_pf
     data = h._vlrs.get("ExtraBytesVlr")[0].record_data_bytes()
     assert len(data) == 192 * len(extra)
@@ -124,6 +153,131 @@ def serialised(las):
 # generators
 # ---------------------------------------------------------------------------------
 PROBLEMS = {}
+_POOL = None
+
+
+_SUBS, _CANDS = {}, {}
+
+
+def sub_field_names(fmt):
+    """names that record[name] resolves to a bit-packed sub-field of format fmt (only used to LABEL names, computed once)"""
+    if fmt not in _SUBS:
+        _SUBS[fmt] = [n for n in std_dim_names(fmt) if n not in SPEC_FIELDS[fmt]]
+    return _SUBS[fmt]
+
+
+def name_pool():
+    """every name laspy gives a meaning to, and near misses: {name: 'field' | 'sub' | 'alias' | 'coordinate' | 'variant'}"""
+    global _POOL
+    if _POOL is None:
+        from laspy.point import dims
+        pool = {}
+        for f in FMTS:
+            for n in SPEC_FIELDS[f]:
+                pool[n] = "field"
+        for f in FMTS:
+            for n in sub_field_names(f):
+                pool.setdefault(n, "sub")
+        for k, v in dims.OLD_LASPY_NAMES.items():
+            pool.setdefault(k, "alias")
+        for n in ("x", "y", "z"):
+            pool.setdefault(n, "coordinate")
+        for n in list(pool):
+            for v in (n.upper(), n.capitalize(), n + "_", "_" + n, n[:-1], n + "2"):
+                if v and v not in pool:
+                    pool[v] = "variant"
+        _POOL = pool
+    return _POOL
+
+
+def name_class(name, src, tgt):
+    """how the name of an extra dimension of a format-src record relates to the names laspy knows, for a conversion to tgt"""
+    pool = name_pool()
+    t = src if tgt is None else tgt
+    if t in FMTS and name in SPEC_FIELDS[t]:
+        return "target-field"
+    if t in FMTS and name in sub_field_names(t):
+        return "target-sub-field"
+    if src in FMTS and name in sub_field_names(src):
+        return "source-sub-field"
+    k = pool.get(name)
+    if k in ("alias", "coordinate", "variant"):
+        return k
+    if k in ("field", "sub"):
+        return "other-format"
+    return "fresh"
+
+
+def worst_class(las, src, tgt, only=None):
+    """the most confusable class among the names of the extra dimensions (of the one named `only`)"""
+    cl = [name_class(d.name, src, tgt) for d in las.point_format.extra_dimensions if only is None or d.name == only]
+    for c in CLASSES:
+        if c in cl:
+            return c
+    return "fresh"
+
+
+def tag(kind, cls):
+    return kind if cls == "fresh" else f"{kind} [name clash: {cls}]"
+
+
+def clash_candidates(src, tgt):
+    """{class: [names]} of the names an extra dimension of a format-src record may carry (numpy refuses the packed fields of src)"""
+    if (src, tgt) not in _CANDS:
+        out = {}
+        for n in sorted(name_pool()):
+            if n in SPEC_FIELDS[src]:
+                continue
+            out.setdefault(name_class(n, src, tgt), []).append(n)
+        _CANDS[(src, tgt)] = out
+    return _CANDS[(src, tgt)]
+
+
+BASE_TYPES = ["u1", "i1", "u2", "i2", "u4", "i4", "u8", "i8", "f4", "f8"]
+
+
+def add_clash_dims(rng, h, k, src, tgt):
+    """k extra dimensions named after things laspy knows (own copy of lasio.add_extra_dims for the types / scaling)"""
+    import laspy
+    cands = clash_candidates(src, tgt if tgt in FMTS else src)
+    used = set()
+    for j in range(k):
+        classes = [c for c in CLASSES if cands.get(c)]
+        c = rng.choice(classes + [x for x in ("target-field", "target-sub-field", "alias") if x in classes])
+        free = [n for n in cands[c] if n not in used]
+        if not free:
+            continue
+        name = rng.choice(free)
+        used.add(name)
+        n = rng.choice([1, 1, 1, 2, 3])
+        t = (str(n) if n > 1 else "") + rng.choice(BASE_TYPES)
+        kw = {}
+        if rng.random() < 0.25:
+            kw = dict(scales=np.array([rng.choice([0.5, 0.01, 2.0]) for _ in range(n)]),
+                      offsets=np.array([rng.choice([0.0, 10.0, -3.5]) for _ in range(n)]))
+        h.add_extra_dim(laspy.ExtraBytesParams(name, t, description=lasio.rand_ascii(rng, rng.choice([0, 3, 32]), list(range(65, 91))), **kw))
+    if k and rng.random() < 0.4:
+        h.vlrs.append(lasio.rand_vlr(rng))
+    return h
+
+
+def fill_clash_values(rng, rec, src, tgt):
+    """clash-named extra dimensions hold non-zero values: all ones (fit any field) or values above the ranges of standard fields"""
+    n = len(rec.array)
+    if not n:
+        return
+    ones = rng.random() < 0.5
+    for d in rec.point_format.extra_dimensions:
+        if name_class(d.name, src, tgt) == "fresh":
+            continue
+        a = rec.array[d.name]
+        base = a.dtype.base
+        if base.kind in "iu":
+            info = np.iinfo(base)
+            vals = [1] if ones else [1, min(70000, int(info.max)), int(info.max), 3]
+        else:
+            vals = [1.0] if ones else [1.0, 70000.25, 2.5]
+        a[...] = np.array([rng.choice(vals) for _ in range(a.size)], dtype=base).reshape(a.shape)
 
 
 def build_source(spec):
@@ -132,11 +286,16 @@ def build_source(spec):
     from laspy.vlrs.vlrlist import VLRList
     rng = random.Random(spec["seed"])
     h = lasio.rand_header(rng, version=spec["sver"], fmt=spec["src"], nvlrs=spec["nvlrs"])
-    lasio.add_extra_dims(rng, h, spec["nextra"])
+    if spec.get("clash"):
+        add_clash_dims(rng, h, spec["nextra"], spec["src"], spec["tgt"])
+    else:
+        lasio.add_extra_dims(rng, h, spec["nextra"])
     if spec["vlr_after_eb"]:
         h.vlrs.append(lasio.rand_vlr(rng, max_payload=40))
     n = spec["n"]
     rec = lasio.rand_points(rng, h, n, spec["pattern"])
+    if spec.get("clash"):
+        fill_clash_values(rng, rec, spec["src"], spec["tgt"])
     names = rec.array.dtype.names
     if n and spec["src"] >= 6:
         mode = spec["mode"]
@@ -191,6 +350,9 @@ def case_specs(ctx):
         ev = kw.pop("evlrs", None) or (rng.choice(["some", "some", "empty", "none"]) if sver == "1.4" else rng.choice(["none", "none", "none", "some"]))
         nextra = kw.pop("nextra", None)
         nextra = rng.choice([0, 0, 1, 2, 3]) if nextra is None else nextra
+        if nextra and "clash" not in kw and src in FMTS and rng.random() < 0.5:
+            kw["clash"] = True
+            kw.setdefault("n", rng.choice([1, 2, 3, 7]))
         s = dict(seed=rng.getrandbits(48), src=src, tgt=tgt, ver=ver, sver=sver, mode=mode, n=rng.choice([0, 1, 2, 3, 7]),
                  pattern=rng.choice(["random", "random", "ones", "small", "extremes"]), nextra=nextra,
                  nvlrs=rng.choice([0, 0, 1, 2, 5]), vlr_after_eb=bool(nextra) and rng.random() < 0.6, evlrs=ev,
@@ -211,6 +373,11 @@ def case_specs(ctx):
                         add(src, tgt, ver)
             for ver in vers:
                 add(src, None, ver)
+    # names: every pair, one or two extra dimensions named after something laspy knows; every value of the standard fields fits
+    for _ in range(ctx.n(1, 6)):
+        for src in FMTS:
+            for tgt in FMTS:
+                add(src, tgt, rng.choice(vers), "fit", clash=True, nextra=rng.choice([1, 1, 2]), n=rng.choice([1, 2, 5]))
     # one violating value in each narrow field, a single point, nothing else in the way
     for src in range(6, 11):
         for tgt in range(6):
@@ -247,6 +414,76 @@ def std_dim_names(fmt):
     return list(laspy.PointFormat(fmt).dimension_names)
 
 
+def first_diff(a, b):
+    """index of the first element in which two equally long arrays differ (floats by bit pattern), or None"""
+    a, b = np.asarray(a), np.asarray(b)
+    if a.dtype.kind == "f":
+        a = np.ascontiguousarray(a).view(f"u{a.dtype.itemsize}")
+    if b.dtype.kind == "f":
+        b = np.ascontiguousarray(b).view(f"u{b.dtype.itemsize}")
+    if a.shape != b.shape:
+        return 0
+    ne = np.nonzero(np.atleast_1d(a != b).reshape(len(a), -1).any(axis=1))[0] if a.size else []
+    return int(ne[0]) if len(ne) else None
+
+
+def compare_records(las, r, src, t, tgt=None):
+    """the record part of C12 on a result r of convert(las -> format t): [(kind, observed)] (vectorised: any record size)"""
+    bad = []
+    if len(r.points) != len(las.points):
+        return [("point count", f"{len(r.points)} points, source has {len(las.points)}")]
+    sn, tn = std_dim_names(src), std_dim_names(t)
+    for nm in ["X", "Y", "Z"] + [x for x in tn if x in sn and x not in ("X", "Y", "Z")]:
+        a, b = np.asarray(las.points[nm]), np.asarray(r.points[nm])
+        i = first_diff(a, b)
+        if i is not None:
+            cls = worst_class(las, src, t, only=nm)
+            bad.append((tag(f"dimension {nm}", cls if cls != "fresh" else worst_class(las, src, t)),
+                        f"point {i} of {len(a)}: {nm} = {b[i]!r} after convert {src}->{t}, source holds {a[i]!r}"))
+    for nm in [x for x in tn if x not in sn]:
+        b = np.asarray(r.points[nm])
+        nz = np.nonzero(b)[0]
+        if len(nz):
+            bad.append((tag(f"dimension {nm} not zero", worst_class(las, src, t, only=nm)),
+                        f"point {int(nz[0])}: {nm} = {b[nz[0]]!r} after convert {src}->{t}; format {src} has no such dimension"
+                        + (f" (the source holds an EXTRA dimension of that name: {np.asarray(las.points.array[nm]).reshape(len(b), -1)[nz[0]].tolist()})"
+                           if nm in (las.points.array.dtype.names or ()) else "")))
+    ks, kr = lasio.format_key(las.point_format)[1], lasio.format_key(r.point_format)[1]
+    if ks != kr:
+        missing = [k[0] for k in ks if k[0] not in [x[0] for x in kr]]
+        cls = worst_class(las, src, t, only=missing[0]) if missing else worst_class(las, src, t)
+        bad.append((tag("extra dimension layout", cls), f"{kr} vs source {ks}" + (f": {missing} missing" if missing else "")))
+    else:
+        for d in las.point_format.extra_dimensions:
+            a = np.asarray(las.points.array[d.name])
+            b = np.asarray(r.points.array[d.name])
+            if a.dtype != b.dtype or a.shape != b.shape or a.tobytes() != b.tobytes():
+                i = first_diff(a, b) if a.dtype == b.dtype and a.shape == b.shape else 0
+                i = 0 if i is None else i      # only the bytes differ (NaN payloads ...)
+                bad.append((tag("extra dimension bytes", name_class(d.name, src, t)),
+                            f"{d.name} ({d.type_str()}, scaled={d.is_scaled}) point {i} of {len(a)}: {np.atleast_1d(b)[i].tolist()!r} "
+                            f"after convert {src}->{t}, source holds {np.atleast_1d(a)[i].tolist()!r}"))
+            sd = [x for x in r.point_format.extra_dimensions if x.name == d.name][0]
+            if sd.description != d.description:
+                bad.append(("extra dimension description", f"{d.name}: {sd.description!r} vs {d.description!r}"))
+    if np.shares_memory(r.points.array, las.points.array):
+        bad.append(("shared state array", "result and source records share memory"))
+    return bad
+
+
+def call_convert(las, spec):
+    import laspy
+    kw = {}
+    if spec["tgt"] is not None:
+        kw["point_format_id"] = spec["tgt"]
+    if spec["ver"] is not None:
+        kw["file_version"] = spec["ver"]
+    try:
+        return laspy.convert(las, **kw), "ok"
+    except Exception as ex:
+        return None, common.exc_kind(ex)
+
+
 def oracle(spec, las, before, outcome, res, ser_before=None):
     """list of (kind, observed) violations of C12 on this case; outcome = 'ok' | exception kind"""
     bad = []
@@ -272,6 +509,7 @@ def oracle(spec, las, before, outcome, res, ser_before=None):
         if outcome != "ELaspy":
             bad.append(("incompatible request accepted", f"format {t} with version {ver}: {outcome}, expected LaspyException"))
         return bad
+    wc = worst_class(las, src, t)
     # expected narrowing
     over = []
     if src >= 6 and t <= 5 and len(las.points):
@@ -279,6 +517,22 @@ def oracle(spec, las, before, outcome, res, ser_before=None):
             vals = values_of(las, nm)
             if max(vals) > mx:
                 over.append((nm, max(vals), mx))
+    # names: an extra dimension named like a packed field of the target cannot be stored next to it
+    clash = [d.name for d in las.point_format.extra_dimensions if d.name in SPEC_FIELDS[t]]
+    if clash:
+        if outcome == "ok":
+            enames = list(res.point_format.extra_dimension_names)
+            try:
+                got = np.asarray(res.points[clash[0]]).reshape(len(res.points), -1)[:4].tolist()
+            except Exception as ex:
+                got = type(ex).__name__
+            bad.append((tag("name clash accepted", "target-field"),
+                        f"the source has an extra dimension {clash[0]!r} ({[d for d in las.point_format.extra_dimensions if d.name == clash[0]][0].type_str()}, "
+                        f"values {np.asarray(las.points.array[clash[0]]).reshape(len(las.points), -1)[:4].tolist()}); format {t} has a field "
+                        f"of that name: convert {src}->{t} returned a result with extra dimensions {enames} and {clash[0]} = {got}"))
+        elif outcome != "EValue" and not (over and outcome == "EOverflow"):
+            bad.append((tag("name clash wrong error", "target-field"), f"extra dimension {clash[0]!r} next to format {t}: {outcome}, expected ValueError"))
+        return bad + second_call(spec, las, outcome, None)
     if over:
         if outcome != "EOverflow":
             nm, v, mx = over[0]
@@ -287,9 +541,10 @@ def oracle(spec, las, before, outcome, res, ser_before=None):
                 bad.append((f"narrowing not refused {nm}", f"{nm} holds {v} (> {mx}) in the source; convert {src}->{t} returned a record with {nm} = {got[:8]}"))
             else:
                 bad.append((f"narrowing wrong error {nm}", f"{nm} holds {v} (> {mx}): {outcome}, expected OverflowError"))
-        return bad
+        return bad + second_call(spec, las, outcome, None)
     if outcome != "ok":
-        bad.append(("conversion refused", f"convert {src}->{t} version {ver}: {outcome} although every value fits"))
+        bad.append((tag("conversion refused", wc), f"convert {src}->{t} version {ver}: {outcome} although every value fits"
+                    + (f" (extra dimensions {list(las.point_format.extra_dimension_names)})" if wc != "fresh" else "")))
         return bad
     r = res
     if len(r.points) != len(las.points):
@@ -304,25 +559,9 @@ def oracle(spec, las, before, outcome, res, ser_before=None):
         bad.append(("version lowered", f"{sv} -> {rv}"))
     if t not in lasio.COMPAT.get(f"{rv[0]}.{rv[1]}", ()):
         bad.append(("incompatible result", f"version {rv} with format {t}"))
-    sn, tn = std_dim_names(src), std_dim_names(t)
-    for nm in ["X", "Y", "Z"] + [x for x in tn if x in sn and x not in ("X", "Y", "Z")]:
-        a, b = values_of(las, nm), values_of(r, nm)
-        if a != b:
-            i = next(k for k in range(len(a)) if a[k] != b[k])
-            bad.append((f"dimension {nm}", f"point {i}: {nm} = {b[i]} after convert {src}->{t}, source holds {a[i]}"))
-    # extra dimensions
-    ks, kr = lasio.format_key(las.point_format)[1], lasio.format_key(r.point_format)[1]
-    if ks != kr:
-        bad.append(("extra dimension layout", f"{kr} vs source {ks}"))
-    else:
-        for d in las.point_format.extra_dimensions:
-            a = np.ascontiguousarray(las.points.array[d.name]).tobytes()
-            b = np.ascontiguousarray(r.points.array[d.name]).tobytes()
-            if a != b:
-                bad.append(("extra dimension bytes", f"{d.name} ({d.type_str()}, scaled={d.is_scaled}): {b[:16].hex()} vs source {a[:16].hex()}"))
-            sd = [x for x in r.point_format.extra_dimensions if x.name == d.name][0]
-            if sd.description != d.description:
-                bad.append(("extra dimension description", f"{d.name}: {sd.description!r} vs {d.description!r}"))
+    # the record: coordinates, common dimensions, dimensions the source lacks, extra dimensions
+    bad += compare_records(las, r, src, t)
+    ks = lasio.format_key(las.point_format)[1]
     # VLRs
     us = [vlr_flat(v) for v in las.header.vlrs if not is_eb(v)]
     ur = [vlr_flat(v) for v in r.header.vlrs if not is_eb(v)]
@@ -336,6 +575,8 @@ def oracle(spec, las, before, outcome, res, ser_before=None):
                 None if p.offsets is None else tuple(map(float, p.offsets)), p.description) for p in ebs[0].type_of_extra_dims()]
         want = [(d.name, np.dtype(d.type_str()).str if d.num_elements == 1 else None, None if d.scales is None else tuple(map(float, d.scales)),
                  None if d.offsets is None else tuple(map(float, d.offsets)), d.description) for d in las.point_format.extra_dimensions]
+        if len(got) != len(want):
+            bad.append((tag("extra bytes vlr", wc), f"{len(got)} descriptors for {len(want)} extra dimensions"))
         for g, w in zip(got, want):
             if g[0] != w[0] or (w[1] is not None and g[1] != w[1]) or g[2:] != w[2:]:
                 bad.append(("extra bytes vlr", f"descriptor {g} vs source dimension {w}"))
@@ -346,18 +587,32 @@ def oracle(spec, las, before, outcome, res, ser_before=None):
         er = None if r.header.evlrs is None else [vlr_flat(v) for v in r.header.evlrs]
         if es != er and not (not es and not er):
             bad.append(("evlrs", f"{None if er is None else len(er)} EVLRs after convert to {rv}, source has {None if es is None else len(es)}"))
-    # shared state: edits of the result must not show in the source
-    if np.shares_memory(r.points.array, las.points.array):
-        bad.append(("shared state array", "result and source records share memory"))
+    # shared state: edits of the result must not show in the source, nor in what a second call returns
+    snap_r = snapshot(r)
     try:
         mutate(r)
     except Exception as ex:  # the result must be an ordinary, editable LasData
-        bad.append(("result not editable", f"{type(ex).__name__}: {ex}"))
+        bad.append((tag("result not editable", wc), f"{type(ex).__name__}: {ex}"))
     after2 = snapshot(las)
     if after2 != before:
         which = [i for i, (x, y) in enumerate(zip(before, after2)) if x != y]
         bad.append(("shared state", f"editing the result changed snapshot components {which} of the source"))
-    return bad
+    return bad + second_call(spec, las, outcome, snap_r)
+
+
+def second_call(spec, las, outcome, snap_r):
+    """the same request again, after the caller edited what the first call returned: same outcome, same result by value"""
+    res2, out2 = call_convert(las, spec)
+    if out2 != outcome:
+        return [("second call differs", f"convert {spec['src']}->{spec['tgt']} version {spec['ver']}: first call {outcome}, second call "
+                 f"(after the first result was edited) {out2}")]
+    if snap_r is not None:
+        snap2 = snapshot(res2)
+        if snap2 != snap_r:
+            which = [i for i, (x, y) in enumerate(zip(snap_r, snap2)) if x != y]
+            return [("second call differs", f"convert {spec['src']}->{spec['tgt']} version {spec['ver']}: snapshot components {which} of the "
+                     f"second result differ from the first result (taken before the caller edited it)")]
+    return []
 
 
 def mutate(r):
@@ -395,16 +650,7 @@ def run_case(spec):
     before = snapshot(las)
     ser_before = serialised(las)
     src_tokens = enc_las(las)
-    kw = {}
-    if spec["tgt"] is not None:
-        kw["point_format_id"] = spec["tgt"]
-    if spec["ver"] is not None:
-        kw["file_version"] = spec["ver"]
-    try:
-        res = laspy.convert(las, **kw)
-        outcome = "ok"
-    except Exception as ex:
-        res, outcome = None, common.exc_kind(ex)
+    res, outcome = call_convert(las, spec)
     if outcome == "ok":
         try:
             impl = "ok " + " ".join(enc_las(res)) + " " + ("T" if snapshot(las) == before else "F")
@@ -418,7 +664,7 @@ def run_case(spec):
         viol = [("result unusable", f"inspecting the result of convert {spec['src']}->{spec['tgt']} raised {type(ex).__name__}: {str(ex)[:120]}")]
     cmd = "convert {} {} {} {} {} {} {} {}".format(src_tokens[0], src_tokens[1], "-" if spec["tgt"] is None else spec["tgt"],
                                                      spec["ver"] or "-", *src_tokens[2:])
-    return dict(cmd=cmd, impl=impl, viol=viol, outcome=outcome, digest=hash((src_tokens[3], src_tokens[2], src_tokens[4], src_tokens[5])),
+    return dict(cmd=cmd, impl=impl, viol=viol, outcome=outcome, wc=worst_class(las, spec["src"], spec["src"] if spec["tgt"] is None else spec["tgt"]), digest=hash((src_tokens[3], src_tokens[2], src_tokens[4], src_tokens[5])),
                 n=len(las.points), nontrivial=bool(len(las.points) or src_tokens[2] != "-" or src_tokens[4] != "-"))
 
 
@@ -460,8 +706,10 @@ def table_checks():
     """dimension names and lost_dimensions of the implementation, all formats / pairs: [(cmd, impl token)]"""
     from laspy.point.format import lost_dimensions
     out = []
+    import laspy
     for f in FMTS:
         out.append((f"dims {f}", "|".join(std_dim_names(f)), False))
+        out.append((f"storage {f}", "|".join(laspy.PointFormat(f).dtype().names), False))
     for a in FMTS:
         for b in FMTS:
             out.append((f"lost {a} {b}", lost_dimensions(a, b), True))
@@ -482,7 +730,7 @@ def correspond(ctx):
                 a, b = mo.split(" "), c["impl"].split(" ")
                 parts = ["version", "format", "extra dims", "points", "vlrs", "evlrs", "source unchanged"]
                 what = "result differs in " + ",".join(p for p, x, y in zip(parts, a[1:], b[1:]) if x != y)
-            dis.append({"kind": what, "input": s, "model": mo[:300], "impl": c["impl"][:300]})
+            dis.append({"kind": tag(what, c["wc"]), "input": s, "model": mo[:300], "impl": c["impl"][:300]})
     tabs = table_checks()
     outs = common.run_model([t[0] for t in tabs], name=DRIVER)
     for (cmd, impl, as_set), mo in zip(tabs, outs):
@@ -500,17 +748,276 @@ def correspond(ctx):
 
 
 def lost_oracle():
+    """lost_dimensions for all 121 pairs, each asked twice: the caller edits the list it got (clear / append / drop / reverse),
+    the next answer must still be exactly the dimensions of a absent from b"""
     from laspy.point.format import lost_dimensions
     bad = []
     for a in FMTS:
         for b in FMTS:
-            got = lost_dimensions(a, b)
             want = set(std_dim_names(a)) - set(std_dim_names(b))
+            got = lost_dimensions(a, b)
             if set(got) != want or len(got) != len(set(got)):
                 bad.append({"kind": "lost dimensions", "input": {"lost": [a, b]},
                             "observed": f"lost_dimensions({a}, {b}) = {sorted(got)}, dimensions of {a} absent from {b}: {sorted(want)}"})
                 return bad
+            edit = ["clear", "append", "drop", "reverse"][(a + 3 * b) % 4]
+            try:
+                if edit == "clear":
+                    got.clear()
+                    got.append("edited_by_the_caller")
+                elif edit == "append":
+                    got.append("edited_by_the_caller")
+                elif edit == "drop" and got:
+                    got.pop()
+                else:
+                    got.reverse()
+                    got.insert(0, "edited_by_the_caller")
+            except (AttributeError, TypeError):
+                pass        # an immutable answer cannot be edited: fine
+            again = lost_dimensions(a, b)
+            if set(again) != want or len(again) != len(set(again)):
+                bad.append({"kind": "lost dimensions second call", "input": {"lost": [a, b], "edit": edit},
+                            "observed": f"lost_dimensions({a}, {b}) asked again after the caller edited ({edit}) the list it got the first time = "
+                                        f"{sorted(again)}, dimensions of {a} absent from {b}: {sorted(want)}"})
+                return bad
     return bad
+
+
+def api_twice():
+    """the table functions convert relies on and exports, called twice, the caller editing the first answer in between"""
+    import laspy
+    bad = []
+
+    def canon(x):
+        if isinstance(x, (set, frozenset)):
+            return sorted(map(str, x))
+        if isinstance(x, np.dtype):
+            return str(x.descr)
+        if isinstance(x, (list, tuple)):
+            return [canon(y) for y in x]
+        return str(x)
+
+    def edit(x):
+        try:
+            if isinstance(x, set):
+                x.clear()
+                x.add("edited")
+            elif isinstance(x, list):
+                del x[len(x) // 2:]
+                x.append(x[0] if x else "edited")
+            elif isinstance(x, dict):
+                x.clear()
+        except Exception:
+            pass
+
+    calls = [("supported_point_formats", lambda: laspy.supported_point_formats(), lambda v: v == sorted(map(str, FMTS))),
+             ("supported_versions", lambda: laspy.supported_versions(), lambda v: set(VERS) <= set(v))]
+    for f in FMTS:
+        calls.append((f"PointFormat({f}).dimensions", (lambda f=f: laspy.PointFormat(f).dimensions),
+                      (lambda v, f=f: len(v) == len(std_dim_names(f)))))
+        calls.append((f"list(PointFormat({f}).dimension_names)", (lambda f=f: list(laspy.PointFormat(f).dimension_names)),
+                      (lambda v, f=f: len(v) == len(set(v)) and set(SPEC_FIELDS[f]) - {"bit_fields", "raw_classification", "classification_flags"} <= set(v))))
+        calls.append((f"PointFormat({f}).dtype().descr", (lambda f=f: laspy.PointFormat(f).dtype().descr),
+                      (lambda v, f=f: len(v) == len(SPEC_FIELDS[f]))))
+        calls.append((f"list(PointFormat({f}).extra_dimension_names)", (lambda f=f: list(laspy.PointFormat(f).extra_dimension_names)),
+                      (lambda v: v == [])))
+    for name, thunk, ok in calls:
+        first = thunk()
+        c1 = canon(first)
+        if not ok(c1):
+            bad.append({"kind": "table function", "input": {"api_twice": name}, "observed": f"{name} = {c1}"})
+            continue
+        edit(first)
+        c2 = canon(thunk())
+        if c2 != c1:
+            bad.append({"kind": "table function second call", "input": {"api_twice": name},
+                        "observed": f"{name}: {c2} after the caller edited the first answer, {c1} the first time"})
+    return bad
+
+
+# ---------------------------------------------------------------------------------
+# names: every name laspy knows (and near misses) as an extra dimension, every (source, target) pair
+# ---------------------------------------------------------------------------------
+def sweep_source(src, name, typ, vals):
+    import laspy
+    h = laspy.LasHeader(version="1.4", point_format=src)
+    h.add_extra_dim(laspy.ExtraBytesParams(name, typ))
+    h.add_extra_dim(laspy.ExtraBytesParams("plain_extra", "u2"))
+    rec = laspy.ScaleAwarePointRecord.zeros(len(vals), header=h)
+    n = len(vals)
+    for d in h.point_format.standard_dimensions:      # every standard dimension non-zero and within the narrowest field
+        rec[d.name] = (np.arange(n) % (1 if d.num_bits == 1 else 3 if d.name == "scanner_channel" else 7)) + 1 \
+            if d.kind.name != "FloatingPoint" else np.arange(n) + 1.5
+    rec.array[name] = np.array(vals, dtype=rec.array[name].dtype)
+    rec.array["plain_extra"] = np.arange(n) + 500
+    return laspy.LasData(h, rec)
+
+
+def sweep_one(inp):
+    """one (source format, name, type, values) source converted to every target: [(kind, observed, input)]"""
+    src, name, typ, vals = inp["src"], inp["name"], inp["type"], inp["values"]
+    out = []
+    las = sweep_source(src, name, typ, vals)
+    raw = las.points.array.tobytes()
+    for t in inp.get("targets") or FMTS:
+        res, outcome = call_convert(las, {"src": src, "tgt": t, "ver": None})
+        cls = name_class(name, src, t)
+        bad = []
+        if name in SPEC_FIELDS[t]:
+            if outcome == "ok":
+                bad.append((tag("name clash accepted", cls),
+                            f"format {src} + extra dimension {name!r} ({typ}) = {vals}; format {t} has a field of that name: convert returned a "
+                            f"result with extra dimensions {list(res.point_format.extra_dimension_names)} and {name} = "
+                            f"{np.asarray(res.points[name]).tolist()}"))
+            elif outcome != "EValue":
+                bad.append((tag("name clash wrong error", cls), f"format {src} + extra dimension {name!r} -> {t}: {outcome}, expected ValueError"))
+        elif outcome != "ok":
+            bad.append((tag("conversion refused", cls), f"format {src} + extra dimension {name!r} ({typ}) = {vals} -> {t}: {outcome}; "
+                        f"format {t} has no field of that name and every standard value fits"))
+        else:
+            first = compare_records(las, res, src, t)
+            bad += first
+            res.points.array.view(np.uint8)[...] = 0xFF        # the caller edits the result, then asks again
+            res2, out2 = call_convert(las, {"src": src, "tgt": t, "ver": None})
+            second = compare_records(las, res2, src, t) if out2 == "ok" else [("refused", out2)]
+            if [k for k, _ in second] != [k for k, _ in first]:
+                bad.append(("second call differs", f"format {src} + extra dimension {name!r} -> {t}: second conversion {second[:2]}, first {first[:2]}"))
+        if las.points.array.tobytes() != raw:
+            bad.append(("source modified", f"format {src} + extra dimension {name!r} -> {t}: the source record changed"))
+        for k, w in bad:
+            out.append((k, w, dict(inp, targets=[t])))
+    return out
+
+
+def clash_sweep(ctx):
+    rng = ctx.rng
+    failing, seen = [], set()
+    names = sorted(name_pool())
+    for src in FMTS:
+        usable = [n for n in names if n not in SPEC_FIELDS[src]]
+        must = [n for n in usable if name_pool()[n] in ("field", "sub", "alias", "coordinate")]
+        rest = [n for n in usable if n not in must]
+        # quick: half of the meaningful names per source format (every one of them over two source formats), a few near misses
+        chosen = (must if ctx.thorough() else rng.sample(must, (len(must) + 1) // 2)) + rng.sample(rest, min(len(rest), ctx.n(4, len(rest))))
+        for name in chosen:
+            typ = rng.choice(["u1", "u2", "u4", "u8", "i4", "f8"])
+            big = {"u1": 255, "u2": 65535, "u4": 70000, "u8": 2 ** 40 + 1, "i4": 70000, "f8": 70000.25}[typ]
+            vals = rng.choice([[1, 1, 1], [1, big, 3], [big, 1, 0]])
+            inp = {"src": src, "name": name, "type": typ, "values": vals}
+            try:
+                res = sweep_one(inp)
+            except Exception as ex:
+                k = f"sweep case not evaluated: {type(ex).__name__}: {str(ex)[:80]}"
+                PROBLEMS[k] = PROBLEMS.get(k, 0) + 1
+                continue
+            for t in FMTS:
+                ctx.count("sweep:" + name_class(name, src, t))
+            ctx.case(("sweep", src, name, typ, tuple(vals)), nontrivial=True)
+            for k, w, i in res:
+                if k not in seen:
+                    seen.add(k)
+                    failing.append({"kind": k, "input": {"sweep": i}, "observed": w})
+    return failing
+
+
+# ---------------------------------------------------------------------------------
+# size: records larger than any block / chunk size a conversion could work with
+# ---------------------------------------------------------------------------------
+def big_source(spec):
+    """n points of format src, every standard and extra value non-zero, position dependent, within the narrowest field of the name"""
+    import laspy
+    n, src = spec["n"], spec["src"]
+    h = laspy.LasHeader(version=spec["sver"], point_format=src)
+    for nm, typ in spec["extra"]:
+        h.add_extra_dim(laspy.ExtraBytesParams(nm, typ))
+    rec = laspy.ScaleAwarePointRecord.zeros(n, header=h)
+    idx = np.arange(n, dtype=np.int64) + spec["shift"]
+    for d in h.point_format.standard_dimensions:
+        if d.kind.name == "FloatingPoint":
+            rec[d.name] = idx + 0.5
+        elif d.kind.name == "BitField":
+            rec[d.name] = idx % min(2 ** d.num_bits - 1, NARROW.get(d.name, 255), 3 if d.name == "scanner_channel" else 255) + 1
+        else:
+            mx = min(2 ** (d.num_bits - (1 if d.kind.name == "SignedInteger" else 0)) - 1, NARROW.get(d.name, 2 ** 31 - 1), 2 ** 31 - 1)
+            rec[d.name] = idx % mx + 1
+    for nm, typ in spec["extra"]:
+        rec.array[nm] = (idx % 65535 + 1).astype(rec.array[nm].dtype)
+    return laspy.LasData(h, rec)
+
+
+def big_one(spec):
+    import laspy
+    las = big_source(spec)
+    src, t = spec["src"], spec["tgt"]
+    digest = hashlib.sha1(las.points.array.tobytes()).hexdigest()
+    zero = [d.name for d in las.point_format.standard_dimensions if not np.asarray(las.points[d.name]).all()]
+    if zero:
+        raise RuntimeError(f"generator: zero values in {zero}")
+    if spec.get("api") == "from_point_record":
+        try:
+            pf = laspy.PointFormat(t)
+            pf.dimensions.extend(las.point_format.extra_dimensions)
+            rec = laspy.PackedPointRecord.from_point_record(las.points, pf)
+            res, outcome = laspy.LasData(laspy.LasHeader(version="1.4", point_format=pf), rec), "ok"
+        except Exception as ex:
+            res, outcome = None, common.exc_kind(ex)
+    else:
+        res, outcome = call_convert(las, {"src": src, "tgt": t, "ver": None})
+    bad = []
+    if outcome != "ok":
+        bad.append(("conversion refused", f"{spec['n']} points {src}->{t}: {outcome} although every value fits"))
+    else:
+        bad += [(k + " (large record)", w) for k, w in compare_records(las, res, src, t)][:2]      # one field is enough: they all share the cause
+    if hashlib.sha1(las.points.array.tobytes()).hexdigest() != digest:
+        bad.append(("source modified", f"{spec['n']} points {src}->{t}: the source record changed"))
+    return bad
+
+
+def big_specs(ctx):
+    rng = ctx.rng
+    specs = []
+
+    def add(n, src=None, tgt=None, api="convert"):
+        src = rng.choice(FMTS) if src is None else src
+        tgt = rng.choice(FMTS) if tgt is None else tgt
+        specs.append(dict(n=n, src=src, tgt=tgt, sver="1.4", shift=rng.randrange(0, 1000), api=api,
+                          extra=[["big_a", "u2"], ["big_b", rng.choice(["f8", "u4", "i8"])]][:rng.choice([1, 2])]))
+
+    M = 1 << 20
+    add(M + rng.randrange(1, 5000))                                         # just over 2^20, any pair
+    add(M + 1 + rng.randrange(0, 64), src=rng.choice([6, 7, 8]), tgt=rng.choice([0, 1, 2, 3]), api="from_point_record")   # narrowing, the record API
+    for n in (65536 + rng.randrange(1, 100), 3 * 65536, 2 * 65536 - 1, 100000 + rng.randrange(0, 50000)):
+        add(n)
+        add(n, api="from_point_record")
+    if ctx.thorough():
+        add(2 * M + rng.randrange(1, 5000))
+        add(2 * M + 1, api="from_point_record")
+        for n in (M, M - 1, M + 1, 2 * M, 3 * M + 7, M + 65536, 4 * M + rng.randrange(1, 1000)):
+            add(n)
+        for src in FMTS:
+            add(M + rng.randrange(1, 3000), src=src)
+            add(M + rng.randrange(1, 3000), tgt=src)
+    return specs
+
+
+def big_cases(ctx):
+    failing, seen = [], set()
+    for spec in big_specs(ctx):
+        try:
+            bad = big_one(spec)
+        except Exception as ex:
+            k = f"large case not evaluated: {type(ex).__name__}: {str(ex)[:80]}"
+            PROBLEMS[k] = PROBLEMS.get(k, 0) + 1
+            continue
+        ctx.count("size:" + ("> 2^21" if spec["n"] > (1 << 21) else "> 2^20" if spec["n"] > (1 << 20) else ">= 2^16" if spec["n"] >= 65536 else "< 2^16"))
+        ctx.count("size-api:" + spec["api"])
+        ctx.case(("big", spec["n"], spec["src"], spec["tgt"], spec["api"], spec["shift"]), nontrivial=True,
+                 sample={"points": spec["n"], "source_format": spec["src"], "target": spec["tgt"], "api": spec["api"]})
+        for k, w in bad:
+            if k not in seen:
+                seen.add(k)
+                failing.append({"kind": k, "input": {"big": spec}, "observed": w})
+    return failing
 
 
 def search(ctx, seeds):
@@ -520,8 +1027,18 @@ def search(ctx, seeds):
             if kind not in seen:
                 seen.add(kind)
                 failing.append({"kind": kind, "input": c["spec"], "observed": why})
-    failing += lost_oracle()
-    return failing[:8]
+    extra = lost_oracle() + api_twice() + big_cases(ctx) + clash_sweep(ctx)
+    for f in extra:
+        if f["kind"] not in seen:
+            seen.add(f["kind"])
+            failing.append(f)
+    for k, v in PROBLEMS.items():
+        note = f"{k} ({v} cases)"
+        if note not in ctx.notes:
+            ctx.notes.append(note)
+    # kinds that do not involve a name clash first (those are listed as one finding against /repo)
+    failing.sort(key=lambda f: "[name clash" in f["kind"] and "target-field" not in f["kind"])
+    return failing[:10]
 
 
 def replay(ctx, data):
@@ -532,6 +1049,24 @@ def replay(ctx, data):
     if "lost" in inp:
         bad = lost_oracle()
         print("REPRODUCED: " + bad[0]["observed"] if bad else "not reproduced")
+        return 1 if bad else 0
+    if "api_twice" in inp:
+        bad = [b for b in api_twice() if b["input"] == inp]
+        print("REPRODUCED: " + bad[0]["observed"] if bad else "not reproduced")
+        return 1 if bad else 0
+    if "big" in inp:
+        bad = big_one(inp["big"])
+        for kind, why in bad:
+            print(f"REPRODUCED: {kind}: {why}")
+        if not bad:
+            print("not reproduced")
+        return 1 if bad else 0
+    if "sweep" in inp:
+        bad = sweep_one(inp["sweep"])
+        for kind, why, _ in bad:
+            print(f"REPRODUCED: {kind}: {why}")
+        if not bad:
+            print("not reproduced")
         return 1 if bad else 0
     c = run_case(inp)
     for kind, why in c["viol"]:
